@@ -14,12 +14,14 @@ from vp.symx import canon, pick, native, pattern_index
 from vp.synth import DG, NativeParser, PX, PA, iform, class_reg, mk_model
 
 
-def _lcd_set(isa, instrs_spec, order, model=None, parallel_cores=0):
+def _lcd_set(isa, instrs_spec, order, model=None, parallel_cores=0, gap_after=None):
     """instrs_spec[i] = (src operands, dst operands, src_dst operands, latency); order = identity ids in file order."""
     kernel = []
     for pos, ident in enumerate(order):
         src, dst, sd, lat = instrs_spec[ident]()
-        kernel.append(iform(pos + 1, src=src, dst=dst, src_dst=sd, lat=lat, mnemonic="op%d" % ident))
+        # a blank line in the file leaves a gap in the line numbers (the parser skips it but keeps counting)
+        ln = pos + 1 + (1 if (gap_after is not None and pos > gap_after) else 0)
+        kernel.append(iform(ln, src=src, dst=dst, src_dst=sd, lat=lat, mnemonic="op%d" % ident))
     parser = NativeParser(PX if isa == "x86" else PA)
     if parallel_cores:
         # multi-process branch (threshold lowered) with stub processes publishing in start order
@@ -33,12 +35,15 @@ def _lcd_set(isa, instrs_spec, order, model=None, parallel_cores=0):
     deps = g.get_loopcarried_dependencies()
     out = set()
     for d in deps.values():
-        members = frozenset(order[x.line_number - 1] for x, _ in d["dependencies"])
+        lnmap = {k.line_number: order[i] for i, k in enumerate(kernel)}
+        members = frozenset(lnmap[x.line_number] for x, _ in d["dependencies"])
+        if lnmap[d["root"].line_number] not in members:
+            members = frozenset(["root-not-a-member"])
         out.add((members, d["latency"]))
     return out, len(deps)
 
 
-def _rot_concrete(isa, nreads, pat, r, narrow, parallel_cores=0):
+def _rot_concrete(isa, nreads, pat, r, narrow, parallel_cores=0, gap=None):
     n = len(nreads)
     specs = []
     k = 0
@@ -53,7 +58,7 @@ def _rot_concrete(isa, nreads, pat, r, narrow, parallel_cores=0):
     base = list(range(n))
     rotated = base[r:] + base[:r]
     a, na = _lcd_set(isa, specs, base, parallel_cores=parallel_cores)
-    b, nb = _lcd_set(isa, specs, rotated, parallel_cores=parallel_cores)
+    b, nb = _lcd_set(isa, specs, rotated, parallel_cores=parallel_cores, gap_after=gap)
     ok = a == b and na == nb
     if ok:
         ma = max([l for _, l in a]) if a else 0
@@ -72,14 +77,23 @@ def _rot(isa, nreads, flat, rot, narrow, prefix=4):
     return verdict(ok, nontrivial=nontrivial, sample=sample)
 
 
-def rot3_x86(r0: int, w0: int, r1: int, w1: int, r2: int, w2: int, rot: int) -> bool:
+def rot3_x86(r0: int, w0: int, r1: int, w1: int, r2: int, w2: int, rot: int, gap: int) -> bool:
     """
-    pre: 1 <= rot <= 2
+    pre: 1 <= rot <= 2 and 0 <= gap <= 2
     post: _
     """
+    # gap: position after which the rotated file has a blank line (2 = none)
     if skip(locals()):
         return True
-    return _rot("x86", [1, 1, 1], [r0, w0, r1, w1, r2, w2], rot, False)
+    flat = [r0, w0, r1, w1, r2, w2]
+    pre = canon(flat[:4])
+    if not in_shard_index(pattern_index(pre)):
+        return True
+    pat = canon(flat)
+    r = pick(rot, 3)
+    g = pick(gap, 3)
+    ok, nontrivial, sample = native(_rot_concrete, "x86", [1, 1, 1], list(pat), r, False, 0, None if g == 2 else g)
+    return verdict(ok, nontrivial=nontrivial, sample=sample)
 
 
 def rot3_parallel(r0: int, w0: int, r1: int, w1: int, r2: int, w2: int, rot: int, cores: int) -> bool:
@@ -245,8 +259,8 @@ def examples_rot_all(ex: int, r: int) -> bool:
 
 
 CELLS = {
-    "rot3_x86": {"fn": rot3_x86, "bound": "n=3, one read + one write per instruction, all 203 coincidence patterns x rotation offsets 1,2",
-                 "budget": {"quick": 120, "thorough": 600}, "shards": 3},
+    "rot3_x86": {"fn": rot3_x86, "bound": "n=3, one read + one write per instruction, all 203 coincidence patterns x rotation offsets 1,2 x a blank line (line-number gap) at each position of the rotated file",
+                 "budget": {"quick": 150, "thorough": 600}, "shards": 5},
     "rot4_x86": {"fn": rot4_x86, "bound": "n=4, all Bell(8)=4140 patterns x offsets 1..3", "budget": {"quick": 170, "thorough": 900}, "shards": 13},
     "rot3_writeback": {"fn": rot3_writeback, "bound": "n=3, instruction 0 = AArch64 pre/post-indexed load or store (base write-back), all patterns x offsets",
                        "budget": {"quick": 170, "thorough": 900}, "shards": 5},
